@@ -40,8 +40,8 @@ Proof.
   - destruct (getop s o) as [c|]; [|now left]; destruct (o_status c); try (now left);
     destruct (o_rx c); cbn [negb]; [|now left]; destruct (nth_error (o_items c) (o_taken c)) as [r|];
     [ destruct (r_kind r); now left
-    | destruct (o_chan c); cbn [negb]; [|now left]; destruct (o_deadline c) as [d|]; [|now left];
-      destruct (d <=? now s); [destruct (is_running s)|]; now left ].
+    | destruct (o_chan c); cbn [negb]; [|now left]; destruct (o_tmo c) as [d|]; [|now left];
+      match goal with |- context [if ?b then _ else _] => destruct b end; [destruct (is_running s)|]; now left ].
   - destruct (getop s o) as [c|]; [|now left]; destruct (o_status c); try (now left); destruct (is_running s); now left.
   - now left.
 Qed.
@@ -208,7 +208,7 @@ Proof.
     destruct (nth_error (o_items c) (o_taken c)) as [r|].
     + destruct (r_kind r); repeat istrip.
     + destruct (o_chan c); cbn [negb]; [|repeat istrip].
-      destruct (o_deadline c) as [d|]; [|apply ipres_refl]. destruct (d <=? now s); [|apply ipres_refl].
+      destruct (o_tmo c) as [d|]; [|repeat istrip]. match goal with |- context [if ?b then _ else _] => destruct b end; [|repeat istrip].
       destruct (is_running s); repeat istrip.
   - (* StreamFinish *) destruct (getop s o) as [c|] eqn:Ec; [|exact E]. apply (exact_ipres s); [exact E|].
     destruct (o_status c); try apply ipres_refl; destruct (is_running s); repeat istrip.
